@@ -77,6 +77,38 @@ pub fn mini() -> IfaceSpec {
     }
 }
 
+/// A big interface: ~90 declarations over a 4-level tree (node ids and handler ids well beyond
+/// 16 and 255), alternating sync / async handlers.
+pub fn big() -> IfaceSpec {
+    let l1 = ["ALPha", "BETa", "GAMma", "DELta"];
+    let l2 = ["ONE", "TWO2", "THRee", "FOUR_x"];
+    let l3 = ["Xa", "Yb", "Zc"];
+    let mut decls = Vec::new();
+    let mut k = 0usize;
+    for a in l1 {
+        for b in l2 {
+            for c in l3 {
+                let cmd = match k % 4 {
+                    0 => format!("{}:{}:{}", a, b, c),
+                    1 => format!("{}:{}:{}?", a, b, c),
+                    2 => format!("{}:[{}]:{}:LEAF", a, b, c),
+                    _ => format!("{}:{}:[{}]:TAIL?", a, b, c),
+                };
+                let query = cmd.ends_with('?');
+                let mut dd = d(&cmd, if k % 5 == 0 { &[Ty::U8] } else { &[] }, if query { QUERY_RET_TYS[k % QUERY_RET_TYS.len()] } else { RetTy::Unit });
+                dd.is_async = k % 2 == 0;
+                decls.push(dd);
+                k += 1;
+            }
+        }
+    }
+    for a in l1 {
+        decls.push(d(a, &[], RetTy::Unit));
+        decls.push(d(&format!("{}?", a), &[], RetTy::U32));
+    }
+    IfaceSpec { name: "big".into(), decls, std_cmds: true, err_cmds: true, queue_cap: 4, full_n: false }
+}
+
 /// Parameter zoo: one command and one query per parameter type, mixed signatures.
 pub fn pzoo() -> IfaceSpec {
     use RetTy as R;
